@@ -165,6 +165,20 @@ CLAIMED = {
              'apparmor_parser -d in this round); variable targets are resolved through the built tunables; pattern targets are accepted.',
         technique='Lean 4 decidable closure predicate + theorems, evaluated on scanned real builds of every distribution',
         ref='8/C08'),
+    'C18': dict(
+        text='Lean 4 theorems, for every text: the abi3 and fsp tasks act on each line separately and leave unchanged every line that '
+             'holds none of their patterns (line locality + no-match identity, on the regenerated pattern lists); complain/enforce '
+             'carry every non-header line through unchanged; hotfix (common to all configurations) is line-local. The file-level and '
+             'directive part is decided on real builds: every pair of configurations of the tier at Hamming distance one in '
+             '(distribution, ABI/version, mode, full) is compared file by file and line by line (multiset difference), and each '
+             'differing line or file is classified by the rule of its axis (header lines; abi line / commented AppArmor-4 rules / '
+             'ABI-guarded lines / overwrite renames / configure files; distribution-guarded lines and ignore-list files; exec-mode '
+             'tokens and full-policy installs).',
+        note='Trusted: Lean kernel; the classification of differing lines is a python classifier whose guarded-line sets are read '
+             'from the only/exclude directives of the source tree; a stale build directory shared by two builds is C02, not C18; '
+             'known findings: the commented-out header of virtiofsd, the packagekitd re-indentation.',
+        technique='Lean 4 proof (line locality and no-match identity of the rewriting tasks) + distance-one diffs of real builds with per-axis classification',
+        ref='8/C18'),
 }
 
 REASON_TODO = 'check not built yet in this round; no claim is made (see DESIGN.md section 13)'
